@@ -3,14 +3,14 @@ import vlib
 class P(vlib.Prop):
     id = "C05"
     watch = ("pkg/apk/apk/implementation.go", "pkg/apk/expandapk/*.go", "pkg/apk/apk/install.go", "pkg/tarfs/fs.go", "pkg/build/installable_from_lock.go")
-    rule = ("install stage: 75 package variants in 9 families — every substitution of the statement (control of another build, data of another package, a modified body, "
+    rule = ("install stage: 78 package variants in 9 families — every substitution of the statement (control of another build, data of another package, a modified body, "
             "a modified / missing / undecodable / borrowed per-file checksum, a different internally consistent package under the URL, wrong / absent / empty / duplicated / upper-case datahash, "
             "checksum strings without Q1 / not base64 / empty / of another build, nothing under the URL), symlinks, hard links (to a file, to a link, retargeted, dangling, before their target), a device entry, "
             "top-level dot files, and every shape of the served byte stream (unsigned, bytes after the last member, truncated after the signature or control member, one member, no member, empty file, "
             "doubled signature / control / data members, a foreign or empty member appended, a data section split over two members, a member after the end-of-archive marker, a control section "
             "starting with a script / without .PKGINFO / that is an empty archive, a data section that is no tar, the fixed C05-F3 shape: two members the first of which starts with a .SIGN.* entry) "
             "— each x {tarfs lazy install, memfs streaming install} x {cache disabled; cold then again in a new process; warm from an earlier process; warm without the uncompressed .dat.tar; "
-            "variant first then origin repaired; same request twice in one process} = 900 cells, every cell in the quick tier; plus republished-URL / memo-key sequences, the well-formed variants "
+            "variant first then origin repaired; same request twice in one process} = 936 cells, every cell in the quick tier; plus republished-URL / memo-key sequences, the well-formed variants "
             "behind a real signed index (FixateWorld), and generated sequences of 2-4 installs with random cache directories, process boundaries, origins and dropped tars. Every install goes "
             "through the real apk.New/InitDB/InstallPackages. Observed: success/failure, recorded pkgdesc, contents of every file readable afterwards under a shipped regular-file or hard-link name. "
             "A case is a sequence; distinct = label + outcome pattern; distribution bucket = family/history/install path:outcomes.")
